@@ -256,6 +256,8 @@ def run(tier, replay=None):
     access = {(m['n'], m['l']): m.get('access', 0) for m in cls['methods']}
     run_r3(chk, fns, G, must_dim, access)
 
+    run_r3b(chk, fns, G)
+
     # ---- R4 leaf convention
     run_r4(chk, fns)
 
@@ -532,6 +534,70 @@ def run_r3(chk, fns, G, must_dim, access):
                '%s:%d' % (rel(f0['file']), f0['line']), ok, why, key='R3|%s' % name)
     chk.expect_count('R3', 'creating functions', n, 8)
 
+
+
+def run_r3b(chk, fns, G, only=None, min_count=4):
+    """R3b: in a function that maintains dimension_ itself, every path that created nodes considers the bound: it writes dimension_ / dimension_to_be_lowered_, or evaluates a guard comparing with dimension_
+    (the `if (dim > dimension_) dimension_ = dim;` idiom), or calls a callee that does. A path that creates nodes and
+    leaves without looking at dimension_ keeps a bound that may be too small."""
+    def direct_dim(f):
+        return ir.contains(f.get('body'), lambda x: ir.write_target(x) is not None and
+                           ir.this_field(ir.write_target(x)) in ('dimension_', 'dimension_to_be_lowered_'))
+    dimmers = {f['name'] for f in fns if direct_dim(f)}
+    n = 0
+    for f in fns:
+        cl = make_classify(f)
+        if not direct_dim(f) or not ir.contains(f.get('body'), lambda x: 'CREATE' in cl(x)):
+            continue
+        if only is not None and f['name'] not in only:
+            continue
+        n += 1
+        binders = create_binders(f, cl)
+        bound = {b + '.second' for b in binders.values() if b}
+
+        def c2(x, cl=cl, f=f, bound=bound):
+            if x.get('k') == 'IfStmt':
+                t = ir.show(x.get('cond'))
+                if 'dimension_' in t or t.lstrip('!') in bound:
+                    return ['$decision']
+                return []
+            ev = [e for e in cl(x) if e in ('CREATE', 'DIM')]
+            if ir.is_call(x) and ir.is_this_call(x) and ir.call_name(x) in dimmers and ir.call_name(x) != f['name']:
+                ev.append('DIM')
+            return ev
+        ps = paths.enumerate_paths(f, c2, loop_mode='1', keep_conds=True, cap=50000)
+        bad = None
+        for p in ps:
+            if p.end == 'throw':
+                continue
+            pend = []
+            seen_create = False
+            ok = False
+            for tag, node in p.events:
+                if tag == 'CREATE':
+                    pend.append(node)
+                    seen_create = True
+                elif tag == 'DIM':
+                    ok = True       # before or after: the bound is set for what this call creates
+                elif tag == '?':
+                    c, pol, _ = node
+                    if isinstance(c, tuple):
+                        continue
+                    t = ir.show(c)
+                    if 'dimension_' in t and c.get('k') not in ('ForStmt', 'WhileStmt'):
+                        ok = True
+                    if not pol:
+                        pend = [x for x in pend if binders.get(id(x)) is None or t != binders[id(x)] + '.second']
+            if pend and not ok and bad is None:
+                bad = (p, pend[-1])
+        chk.ob('R3b-dim-after-create', '%s reconsiders dimension_ after creating nodes on every path' % f['name'],
+               '%s:%d' % (rel(f['file']), f['line']), bad is None,
+               '' if bad is None else 'a path creates nodes (line %s) and never writes or tests '
+               'dimension_ [decisions: %s]' % (bad[1].get('l'), '; '.join(
+                   ('' if pol else '!') + ir.show(c)[:50] for c, pol, _ in bad[0].conds
+                   if not isinstance(c, tuple) and c.get('k') not in ('ForStmt', 'WhileStmt', 'CXXForRangeStmt'))[:200]),
+               key='R3b|%s' % f['name'])
+    chk.expect_count('R3b', 'functions creating nodes and maintaining dimension_', n, min_count)
 
 
 def run_r4(chk, fns):
